@@ -273,7 +273,7 @@ func init() {
 	add(Spec{
 		PropSpec: vlib.PropSpec{
 			ID: "C04", Level: "exploration",
-			Rule: "isolation phase: inputs of the lengths 0, 1, 1499, 1500, 1501, 3000, 65535 (always), PRNG lengths around the pool block size (1400..1600) and corpus inputs of every registered layer type; (1) a packet decoded with the default options, and one decoded with Pool, is signed, then the caller's buffer is complemented and its spare capacity written: the packet's signature (all layers, fields, payloads, Data(), String()) must not change; (2) the signatures under NoCopy, Pool and Pool+NoCopy must equal the default one. pool phase (race build, GOMAXPROCS=8): 2..16 goroutines run PRNG histories of NewPacket(Pool) / hold / Dispose (4 000..20 000 ops each, up to 7 packets held per goroutine, lengths incl. 0,1,1499,1500,1501,3000); a mutex-protected registry maps backing-array base address -> owner, updated so that it cannot false-alarm (removed BEFORE Dispose, inserted AFTER NewPacket returned): an insert that finds the address present means two undisposed pooled packets share a block; every holder re-checks signature and Data() right before disposing; the race detector log is parsed. Non-trivial = isolation case with >= 3 layers or length >= 1499; pool history with >= 2 live packets and at least one observed block reuse; distinct by input hash / (round, batch).",
+			Rule:        "isolation phase: inputs of the lengths 0, 1, 1499, 1500, 1501, 3000, 65535 (always), PRNG lengths around the pool block size (1400..1600) and corpus inputs of every registered layer type; (1) a packet decoded with the default options, and one decoded with Pool, is signed, then the caller's buffer is complemented and its spare capacity written: the packet's signature (all layers, fields, payloads, Data(), String()) must not change; (2) the signatures under NoCopy, Pool and Pool+NoCopy must equal the default one. pool phase (race build, GOMAXPROCS=8): 2..16 goroutines run PRNG histories of NewPacket(Pool) / hold / Dispose (4 000..20 000 ops each, up to 7 packets held per goroutine, lengths incl. 0,1,1499,1500,1501,3000); a mutex-protected registry maps backing-array base address -> owner, updated so that it cannot false-alarm (removed BEFORE Dispose, inserted AFTER NewPacket returned): an insert that finds the address present means two undisposed pooled packets share a block; every holder re-checks signature and Data() right before disposing; the race detector log is parsed. Non-trivial = isolation case with >= 3 layers or length >= 1499; pool history with >= 2 live packets and at least one observed block reuse; distinct by input hash / (round, batch).",
 			Assumptions: []string{"the registry's own mutex adds happens-before edges only between harness operations (insert/remove), not inside NewPacket/Dispose"},
 			Phases: []vlib.Phase{
 				{Name: "isolation", Bin: "vchild", Quick: 16, Thorough: 16},
@@ -289,7 +289,7 @@ func init() {
 	add(Spec{
 		PropSpec: vlib.PropSpec{
 			ID: "C05", Level: "exploration",
-			Rule: "parser phase: inputs = well-formed constructed packets of the core stacks, their mutations, corpus inputs for Ethernet and for each core layer as first layer; layer sets = PRNG subsets of {Ethernet, Dot1Q, IPv4, IPv6, TCP, UDP, ICMPv4, ICMPv6, DNS, ARP, GRE, VXLAN, LLC, SNAP, Payload} (thorough: additionally all 256 subsets of the first 8, round robin); containers = map, sparse array, linear array and a user-written one. For each (input, set, container) DecodeLayers is compared with NewPacket(NoCopy, DecodeStreamsAsDatagrams): the reported types must be exactly the leading run of the packet's layers up to the first error layer or type outside the set (one layer shorter only where the packet contains the half-decoded layer of a decode function that adds its layer before returning the error, confirmed by calling the same DecodeFromBytes on the same bytes); every decoded layer object (last occurrence per type) must have the same exported field values (at every depth), contents and payload as the packet's layer (unexported scratch fields are not observable and not compared; flows are compared through their accessors); Truncated flags must agree; the four containers must agree on (types, error, truncated). stale phase: sequences of 100 packets (constructed with and without IP options, TCP options incl. MPTCP, VLAN, hop-by-hop, DNS, SCTP..., mutated, corpus) are decoded into the SAME layer objects and, each, into fresh objects: results and every decoded layer's signature must be equal. Non-trivial = >= 2 decoded layers; distinct by (input, set) hash.",
+			Rule:        "parser phase: inputs = well-formed constructed packets of the core stacks, their mutations, corpus inputs for Ethernet and for each core layer as first layer; layer sets = PRNG subsets of {Ethernet, Dot1Q, IPv4, IPv6, TCP, UDP, ICMPv4, ICMPv6, DNS, ARP, GRE, VXLAN, LLC, SNAP, Payload} (thorough: additionally all 256 subsets of the first 8, round robin); containers = map, sparse array, linear array and a user-written one. For each (input, set, container) DecodeLayers is compared with NewPacket(NoCopy, DecodeStreamsAsDatagrams): the reported types must be exactly the leading run of the packet's layers up to the first error layer or type outside the set (one layer shorter only where the packet contains the half-decoded layer of a decode function that adds its layer before returning the error, confirmed by calling the same DecodeFromBytes on the same bytes); every decoded layer object (last occurrence per type) must have the same exported field values (at every depth), contents and payload as the packet's layer (unexported scratch fields are not observable and not compared; flows are compared through their accessors); Truncated flags must agree; the four containers must agree on (types, error, truncated). stale phase: sequences of 100 packets (constructed with and without IP options, TCP options incl. MPTCP, VLAN, hop-by-hop, DNS, SCTP..., mutated, corpus) are decoded into the SAME layer objects and, each, into fresh objects: results and every decoded layer's signature must be equal. Non-trivial = >= 2 decoded layers; distinct by (input, set) hash.",
 			Assumptions: []string{"packets containing an IPv6 hop-by-hop layer are skipped in the layer-by-layer comparison: packet decoding shows that header as a layer of its own, the IPv6 decoding layer keeps it inside IPv6", "which error value the parser returns is not part of the property"},
 			Phases: []vlib.Phase{
 				{Name: "parser", Bin: "vchild", Quick: 16, Thorough: 16},
@@ -305,7 +305,7 @@ func init() {
 	add(Spec{
 		PropSpec: vlib.PropSpec{
 			ID: "C06", Level: "exploration",
-			Rule: "roundtrip phase: layer values x = every serializable layer of every error-free packet obtained by decoding corpus inputs (fixtures, capture files, constructed packets, their mutations) as each registered layer type; payload P = the layer's decoded payload. b1 = bytes(x, FixLengths+ComputeChecksums) must decode as x's type with no error, no truncation flag raised by that layer's decoder, and payload P; the decoded layer L1 must equal x (as the serializer left it after fixing its length and checksum fields in place) in every exported field at every depth, lists in order, except fields that are derived (name contains len/length/size/count/num/checksum/crc/fcs/padding/pad/ihl/dataoffset/offset/reserved; raw RDATA copies of DNS records) - those are covered by the fixpoint: L1 written again must give exactly b1 and decode to the same field values. Layer types without a decoder of their own (SCTP chunks) are covered inside their parent by the stacks phase. stacks phase: constructed Ethernet stacks (VLAN, IPv4 with options, IPv6 with extension headers, TCP with options, UDP, ICMPv4/6 incl. NDP options, DNS, ARP, GRE, VXLAN, SCTP ...) are decoded, written with SerializeLayers, decoded (same layer types, same fields, no truncation), and SerializePacket of that packet must reproduce the bytes. built phase: stacks built from in-range field values through the public struct fields (Ethernet, 0-2 VLAN tags, IPv4 with aligned option lists / IPv6 with hop-by-hop and destination headers carrying 1-4 TLV options of 0..13 data bytes so that every residue of the header length mod 8 occurs, routing header; GRE with checksum/key/sequence/routing/ack combinations around a second IP header; TCP with aligned option lists, UDP, DNS with A/AAAA/NS/CNAME/PTR/MX/SRV/SOA/TXT records, ICMPv4, ICMPv6 echo and the four NDP messages with 0-4 options, VXLAN, SCTP data, ARP, unknown IP protocol) over payloads of 0, 1, 2, 3, 17, 45..47, 255, 1471..1473, 9001, 65000 and random sizes and IPv6/TCP jumbograms of 65536, 65537, 70001 bytes: SerializeLayers must succeed, the bytes must decode without error or truncation flag to the same layer types, every built layer must equal the decoded layer in all exported fields except derived ones (alignment pad options excluded), the payload must come back, and SerializePacket of the decoded packet must reproduce the bytes. Non-trivial = round trip with a non-empty payload; distinct by (type, fields, payload) hash.",
+			Rule:        "roundtrip phase: layer values x = every serializable layer of every error-free packet obtained by decoding corpus inputs (fixtures, capture files, constructed packets, their mutations) as each registered layer type; payload P = the layer's decoded payload. b1 = bytes(x, FixLengths+ComputeChecksums) must decode as x's type with no error, no truncation flag raised by that layer's decoder, and payload P; the decoded layer L1 must equal x (as the serializer left it after fixing its length and checksum fields in place) in every exported field at every depth, lists in order, except fields that are derived (name contains len/length/size/count/num/checksum/crc/fcs/padding/pad/ihl/dataoffset/offset/reserved; raw RDATA copies of DNS records) - those are covered by the fixpoint: L1 written again must give exactly b1 and decode to the same field values. Layer types without a decoder of their own (SCTP chunks) are covered inside their parent by the stacks phase. stacks phase: constructed Ethernet stacks (VLAN, IPv4 with options, IPv6 with extension headers, TCP with options, UDP, ICMPv4/6 incl. NDP options, DNS, ARP, GRE, VXLAN, SCTP ...) are decoded, written with SerializeLayers, decoded (same layer types, same fields, no truncation), and SerializePacket of that packet must reproduce the bytes. built phase: stacks built from in-range field values through the public struct fields (Ethernet, 0-2 VLAN tags, IPv4 with aligned option lists / IPv6 with hop-by-hop and destination headers carrying 1-4 TLV options of 0..13 data bytes so that every residue of the header length mod 8 occurs, routing header; GRE with checksum/key/sequence/routing/ack combinations around a second IP header; TCP with aligned option lists, UDP, DNS with A/AAAA/NS/CNAME/PTR/MX/SRV/SOA/TXT records, ICMPv4, ICMPv6 echo and the four NDP messages with 0-4 options, VXLAN, SCTP data, ARP, unknown IP protocol) over payloads of 0, 1, 2, 3, 17, 45..47, 255, 1471..1473, 9001, 65000 and random sizes and IPv6/TCP jumbograms of 65536, 65537, 70001 bytes: SerializeLayers must succeed, the bytes must decode without error or truncation flag to the same layer types, every built layer must equal the decoded layer in all exported fields except derived ones (alignment pad options excluded), the payload must come back, and SerializePacket of the decoded packet must reproduce the bytes. Non-trivial = round trip with a non-empty payload; distinct by (type, fields, payload) hash.",
 			Assumptions: []string{"field comparison covers exported fields; Contents/Payload of the embedded BaseLayer are compared as bytes through the round trip, not as struct fields", "transport checksums use the enclosing IPv4/IPv6 layer of the source packet as pseudo-header", "an Ethernet payload shorter than 46 bytes comes back zero-padded to 46 bytes (minimum frame size; the frame carries no length), and a stack shorter than 60 bytes decodes with that padding as a trailing all-zero Payload layer: both are accepted", "a serializer that returns an error for a decoded value is counted (part_B_serializer_returned_error), not flagged: the statement is about written layers", "layer values taken from packets that decoded with the truncation flag are not used (a jumbo length without its data is inconsistent by construction)", "the payload of a jumbo IPv6 header is what follows its hop-by-hop header (LayerPayload includes that header, pinned by TestIPv6JumbogramDecode)"},
 			Phases: []vlib.Phase{
 				{Name: "roundtrip", Bin: "vchild", Quick: 16, Thorough: 16},
@@ -322,13 +322,14 @@ func init() {
 	add(Spec{
 		PropSpec: vlib.PropSpec{
 			ID: "C07", Level: "exploration",
-			Rule: "buffers phase: every serializable layer that decoding any corpus input (incl. mutated inputs whose packet ends in an error layer) produced is written, for each of the four FixLengths/ComputeChecksums combinations, from identical deep copies into: a fresh buffer, a buffer pre-sized with PRNG (prepend, append) sizes, a pre-sized (0,0) buffer, a buffer that held 2048+2048 bytes of 0xAA/0x55 and was cleared, two poisoned buffers (a SerializeBuffer implementation that fills every returned slice with 0xA5 resp. 0x5A - a never-written byte differs between the two), and the same struct twice. A panic in any of them is a violation (keyed by panic site); all must agree on error-or-not and, when no error, on the bytes. fields phase (layer values built through public fields): on each decoded layer 1-3 exported fields chosen by a PRNG (at any depth: numbers set to 0/1/max/random, bools flipped, byte slices and lists set to nil, shortened, cut, doubled or replaced by 1..70000 elements, pointers set to nil or to a new zero value, strings randomised) are changed - the same change, replayed from its seed, on four independent copies - and the value is written with a PRNG option set over the decoded payload or a payload of 0/1/3/1473/65535/65536/70001 bytes into a fresh, a dirty and the two poisoned buffers: no panic, same error-or-not, same bytes. Built with -d=checkptr. Non-trivial = output longer than payload+4; distinct by (type, output, payload length).",
-			Assumptions: []string{"layer values built through public fields are represented by the values decoding of mutated inputs produces (which includes out-of-range and inconsistent length fields)"},
+			Rule:        "buffers phase: every serializable layer that decoding any corpus input (incl. mutated inputs whose packet ends in an error layer) produced is written, for each of the four FixLengths/ComputeChecksums combinations, from identical deep copies into: a fresh buffer, a buffer pre-sized with PRNG (prepend, append) sizes, a pre-sized (0,0) buffer, a buffer that held 2048+2048 bytes of 0xAA/0x55 and was cleared, two poisoned buffers (a SerializeBuffer implementation that fills every returned slice with 0xA5 resp. 0x5A - a never-written byte differs between the two), and the same struct twice. A panic in any of them is a violation (keyed by panic site); all must agree on error-or-not and, when no error, on the bytes. fields phase (layer values built through public fields): on each decoded layer 1-3 exported fields chosen by a PRNG (at any depth: numbers set to 0/1/max/random, bools flipped, byte slices and lists set to nil, shortened, cut, doubled or replaced by 1..70000 elements, pointers set to nil or to a new zero value, strings randomised) are changed - the same change, replayed from its seed, on four independent copies - and the value is written with a PRNG option set over the decoded payload or a payload of 0/1/3/1473/65535/65536/70001 bytes into a fresh, a dirty and the two poisoned buffers: no panic, same error-or-not, same bytes. zero phase: for every exported struct type of the library that implements SerializableLayer (constructors generated from the source tree before each build, so no type is missed because no corpus input decodes to it) the zero value and values grown from it by setting 1-5 public fields are written the same way (all four option sets, payloads of 0/1/5/40/1473 bytes, with and without an IPv4/IPv6 network layer for the checksum): same oracle. Built with -d=checkptr. Non-trivial = output longer than payload+4; distinct by (type, output, payload length).",
+			Assumptions: []string{"layer values built through public fields are represented by decoded values with 1-3 fields changed and by zero values with 0-5 fields set"},
 			Phases: []vlib.Phase{
 				{Name: "buffers", Bin: "vchild", Quick: 16, Thorough: 16},
 				{Name: "fields", Bin: "vchild", Quick: 16, Thorough: 16},
+				{Name: "zero", Bin: "vchild", Quick: 16, Thorough: 16},
 			},
-			Require: []string{"serializations_compared", "constructed_values_serialized"},
+			Require: []string{"serializations_compared", "constructed_values_serialized", "zero_values_serialized"},
 		},
 		LevelText: "Runtime monitoring: panic monitor plus a differential oracle over serialize-buffer histories, including poisoned buffers that expose requested-but-unwritten bytes (MSan-style), on layer values harvested from decoding hostile inputs; checkptr instrumentation.",
 		LevelNote: trusted,
